@@ -178,7 +178,9 @@ func vpFlushedFileBody() {
 //vp:override bs.encodeFilterSection=vpEncodeSectionStub
 //vp:override bs.parseFilterSection=vpParseSectionOK
 //vp:maxsteps 400000
-//vp:bounds two flushed files of 1..2 and 1 (thorough 1..2) rows (partitions p/q, minmax key present or not, so blocks merge, or are copied because partition or key set differ or the row-group row limit (1000 or 2) forbids it), then the real Merge, with the configured false positive rate unchanged or changed in between; CompressionNone
+//vp:bounds two flushed files of 1..2 and 1 (thorough 1..2) rows (partitions p/q, minmax key present or not, so blocks merge, or are copied because partition or key set differ or the row-group row limit (1000 or 2) forbids it), then the real Merge, with the engine's configuration unchanged or changed in between (false positive rate 0.01 -> 0.001 and row-data compression none -> snappy, the codec being a stand-in that prefixes one marker byte)
+//vp:override (*bs.BloomSearchEngine).createCompressionWriter=vpCreateCompressionWriterTagged
+//vp:override bs.decodeBlockRowDataInto=vpDecodeTagged
 func H_C11_merge_preserves_rows_and_describes_its_output() { vpMergedFileBody() }
 
 func vpMergedFileBody() {
@@ -194,6 +196,9 @@ func vpMergedFileBody() {
 		// the engine was reconfigured between the flushes and the merge: rebuilt filters use the
 		// rate configured now, whatever the source blocks recorded
 		iw.b.config.BloomFalsePositiveRate = 0.001
+		// ... and re-encoded blocks use the codec configured now (a stand-in codec, see
+		// vpCreateCompressionWriterTagged), while blocks copied verbatim keep their own tag
+		iw.b.config.RowDataCompression = CompressionSnappy
 	}
 	var sourceBlocks [][]string
 	for _, id := range []int{ida, idb} {
@@ -242,7 +247,9 @@ func H_C18_flush_indexes_cover_the_rows_written() { vpFlushedFileBody() }
 //vp:override bs.encodeFilterSection=vpEncodeSectionStub
 //vp:override bs.parseFilterSection=vpParseSectionOK
 //vp:maxsteps 400000
-//vp:bounds two flushed files of 1..2 and 1 (thorough 1..2) rows (partitions p/q, minmax key present or not, so blocks merge, or are copied because partition or key set differ or the row-group row limit (1000 or 2) forbids it), then the real Merge, with the configured false positive rate unchanged or changed in between; CompressionNone
+//vp:bounds two flushed files of 1..2 and 1 (thorough 1..2) rows (partitions p/q, minmax key present or not, so blocks merge, or are copied because partition or key set differ or the row-group row limit (1000 or 2) forbids it), then the real Merge, with the engine's configuration unchanged or changed in between (false positive rate 0.01 -> 0.001 and row-data compression none -> snappy, the codec being a stand-in that prefixes one marker byte)
+//vp:override (*bs.BloomSearchEngine).createCompressionWriter=vpCreateCompressionWriterTagged
+//vp:override bs.decodeBlockRowDataInto=vpDecodeTagged
 func H_C18_merge_indexes_cover_the_rows_written() { vpMergedFileBody() }
 
 //vp:override (*bs.bloomEntrySets).indexRow=vpIndexRowRec
@@ -258,7 +265,9 @@ func H_C26_flush_builds_filters_from_the_sets_it_fills() { vpFlushedFileBody() }
 //vp:override bs.encodeFilterSection=vpEncodeSectionStub
 //vp:override bs.parseFilterSection=vpParseSectionOK
 //vp:maxsteps 400000
-//vp:bounds two flushed files of 1..2 and 1 (thorough 1..2) rows (partitions p/q, minmax key present or not, so blocks merge, or are copied because partition or key set differ or the row-group row limit (1000 or 2) forbids it), then the real Merge, with the configured false positive rate unchanged or changed in between; CompressionNone
+//vp:bounds two flushed files of 1..2 and 1 (thorough 1..2) rows (partitions p/q, minmax key present or not, so blocks merge, or are copied because partition or key set differ or the row-group row limit (1000 or 2) forbids it), then the real Merge, with the engine's configuration unchanged or changed in between (false positive rate 0.01 -> 0.001 and row-data compression none -> snappy, the codec being a stand-in that prefixes one marker byte)
+//vp:override (*bs.BloomSearchEngine).createCompressionWriter=vpCreateCompressionWriterTagged
+//vp:override bs.decodeBlockRowDataInto=vpDecodeTagged
 func H_C26_merge_builds_filters_from_the_sets_it_fills() { vpMergedFileBody() }
 
 //vp:override (*bs.bloomEntrySets).indexRow=vpIndexRowRec
@@ -266,7 +275,9 @@ func H_C26_merge_builds_filters_from_the_sets_it_fills() { vpMergedFileBody() }
 //vp:override bs.encodeFilterSection=vpEncodeSectionStub
 //vp:override bs.parseFilterSection=vpParseSectionOK
 //vp:maxsteps 400000
-//vp:bounds two flushed files of 1..2 and 1 (thorough 1..2) rows (partitions p/q, minmax key present or not, so blocks merge, or are copied because partition or key set differ or the row-group row limit (1000 or 2) forbids it), then the real Merge, with the configured false positive rate unchanged or changed in between; CompressionNone
+//vp:bounds two flushed files of 1..2 and 1 (thorough 1..2) rows (partitions p/q, minmax key present or not, so blocks merge, or are copied because partition or key set differ or the row-group row limit (1000 or 2) forbids it), then the real Merge, with the engine's configuration unchanged or changed in between (false positive rate 0.01 -> 0.001 and row-data compression none -> snappy, the codec being a stand-in that prefixes one marker byte)
+//vp:override (*bs.BloomSearchEngine).createCompressionWriter=vpCreateCompressionWriterTagged
+//vp:override bs.decodeBlockRowDataInto=vpDecodeTagged
 func H_C17_merged_file_describes_itself() { vpMergedFileBody() }
 
 // The block grouping inside one partition is a partition of the source blocks: nothing dropped,
